@@ -372,8 +372,21 @@ def run(prog, rep, tier):
                     bound_defs.append((rv[0],))
         full = any(d == ("len",) or (d[0] in ("Add", "Sub") and d[1] == 0) for d in bound_defs)
     else:
-        # no take(): every part's block is released
+        # no take(): every part's block is released - provided the releases happen in a loop over the parts
         full = True
+    # a line may span any number of blocks: the release has to iterate over the line's parts.  A fixed
+    # number of drop_block calls (first and last block) leaves the middle blocks of a long line behind.
+    part_loops = []
+    for (_tl, h_) in dl.back_edges():
+        lb_ = dl.loop_blocks(h_)
+        if any(c.bb in lb_ and c.o.endswith("Iterator::next") and "LinePart" in (c.callee.get("self") or "") for c in dl.live_calls()):
+            part_loops.append(lb_)
+    outside = [c.line for c in dbs if not any(c.bb in lb_ for lb_ in part_loops)]
+    inside = [c.line for c in dbs if any(c.bb in lb_ for lb_ in part_loops)]
+    rep.examined(R174, dl.path + "|per-part", sample={"loops_over_the_line_parts": len(part_loops), "drop_block_calls_inside": len(inside), "drop_block_calls_outside": len(outside)})
+    if not inside:
+        rep.violation(R174, dl.path + "|per-part", "LineReader::drop_line releases blocks with %d drop_block call(s) outside any loop over the line's parts; a line that spans three or more blocks keeps its middle blocks forever "
+                      "(nothing else releases a plain file's blocks), so 'blocks high' grows with the number of long messages" % len(outside))
     rep.examined(R174, dl.path + "|bound", sample={"callers_of_drop_block": callers, "callers_outside_the_decoders": plain_callers, "definitions_of_the_bound": [list(map(str, d)) for d in bound_defs], "can_equal_part_count": full})
     if plain_callers != [LR + "::drop_line"]:
         rep.info("drop_block is also called from %s; R17.4's premise (drop_line is the only releaser for plain files) should be re-read" % [p for p in plain_callers if p != LR + "::drop_line"])
